@@ -71,6 +71,8 @@ def schedule(kind: str, n: int, p_f: float, p_i: float, p_min: float) -> np.ndar
 def make_reservoir(cls: str, nx: int, p_f, p_i: float, table: str | None):
     from bluebonnet.flow import IdealReservoir, SinglePhaseReservoir  # noqa: PLC0415
 
+    if table and table.endswith("_f32"):
+        p_i = np.float32(p_i)  # single-precision table: the initial pressure is a value read off that table
     if cls == "ideal":  # the optional fluid argument must not change the ideal-gas result
         return IdealReservoir(nx, p_f, p_i, tables.fluid(table, p_i) if table else None)
     if cls == "two":  # the oil-gas class: same solver through super().simulate(time), scalar frac-face pressure only
